@@ -682,7 +682,16 @@ func runHistory(ids []ID, ops []*op, class string) {
 						}
 					}
 					if !now {
-						fail("the hello of an unregistered device inside a multi-device batch did not register it", "multidev-hello-not-registered", caseDesc())
+						// the slot may have been taken a moment ago by an earlier hello of the SAME batch whose ID has the same
+						// 32-bit hash: then this is the known structural finding (the second colliding device cannot register;
+						// the entry of the first is not touched), not a new failure
+						key := "multidev-hello-not-registered"
+						for _, e := range tbl {
+							if e.Key == sp.dev.Hash() && e.ID != sp.dev {
+								key = "hash-collision-second-device-cannot-register"
+							}
+						}
+						fail("the hello of an unregistered device inside a multi-device batch did not register it", key, caseDesc())
 						break
 					}
 				}
